@@ -428,5 +428,5 @@ def run(ctx):
                 judge(ctx, {"kind": "dtype", "dtype": dtype, "fn": fn, "intercept": icept})
     ctx.exhaustive["Treatment/Sum objects for 1..12 levels x every reference/omit"] = {"complete": True}
     ctx.exhaustive[f"permutations of <= {maxn} levels as levels= for C/T/S, with/without intercept, str and int data"] = {"complete": True}
-    per = 400 if quick else 3000
+    per = 400 if quick else 9000
     ctx.parallel(_swap_worker, [(k, per) for k in range(ns)])
